@@ -211,6 +211,8 @@ func sfHttpBytes(el *sfEl, live string) (addr string, raw []byte) {
 	}
 }
 
+var sfTick uint32
+
 func (e *sfEnv) runHttp(sc *sfScenario, end M) (obs []sfObs) {
 	e.httpServers()
 	if sfHttp.err != "" {
@@ -235,6 +237,14 @@ func (e *sfEnv) runHttp(sc *sfScenario, end M) (obs []sfObs) {
 			o.Note = what
 		}
 		obs = append(obs, o)
+		if el.K == "api" {
+			// what an API call set up is acted on by the 1-second tick of ServerManager.RunLoop, outside any
+			// HTTP handler (nothing recovers a panic there): run the body of two iterations
+			sfTick++
+			e.server().VerifTick(sfTick)
+			sfTick++
+			e.server().VerifTick(sfTick)
+		}
 	}
 	// the next well-formed requests are served, the bystander stream is untouched
 	c1, _ := sfHttpDo(sfHttp.api, proj.SfHttpRequest("GET", "/api/stat/group?stream_name="+live, "HTTP/1.1", []string{"Host: h"}, nil, false), 2*time.Second)
